@@ -423,6 +423,31 @@ theorem dropEntity_shape (c : Cfg) (s : St) (p : Nat) (ent : List Nat) :
   · exact ⟨List.Sublist.refl _, List.Sublist.refl _, rfl, rfl⟩
   · exact ⟨List.filter_sublist, List.filter_sublist, rfl, rfl⟩
 
+theorem removeEntity_shape (c : Cfg) (s : St) (p : Nat) (ent : List Nat) :
+    (removeEntity c s p ent).subs.Sublist s.subs ∧ (removeEntity c s p ent).binds.Sublist s.binds ∧
+    (removeEntity c s p ent).subNum = s.subNum ∧ (removeEntity c s p ent).bindNum = s.bindNum := by
+  unfold removeEntity
+  split
+  · exact ⟨List.Sublist.refl _, List.Sublist.refl _, rfl, rfl⟩
+  · split
+    · exact dropEntity_shape c s p ent
+    · split
+      · exact ⟨List.filter_sublist, List.filter_sublist, rfl, rfl⟩
+      · exact ⟨List.Sublist.refl _, List.Sublist.refl _, rfl, rfl⟩
+
+theorem delSub_bare (c : Cfg) (s : St) (p cd : Nat) (ce : List Nat) (cf : Nat) (se : List Nat) (sf : Nat) :
+    (delSub c s p cd ce cf se sf).1.bare = s.bare := by
+  unfold delSub
+  repeat' split
+  all_goals first | rfl | (dsimp only; split <;> rfl)
+
+theorem delBind_bare (c : Cfg) (s : St) (p cd : Nat) (ce : List Nat) (cf : Nat) (se : List Nat) (sf : Nat) :
+    (delBind c s p cd ce cf se sf).1.bare = s.bare := by
+  unfold delBind
+  dsimp only
+  repeat' split
+  all_goals rfl
+
 theorem step_subInv (c : Cfg) (s : St) (h : SubInv s) (op : Op) : SubInv (step c s op) := by
   cases op with
   | bind p ce cf se sf t =>
@@ -437,8 +462,9 @@ theorem step_subInv (c : Cfg) (s : St) (h : SubInv s) (op : Op) : SubInv (step c
     exact h.of_sublist this.1 (by simp only [step]; rw [this.2.1]; exact Nat.le_refl _)
   | drop p => exact h.of_sublist List.filter_sublist (Nat.le_refl _)
   | dropEnt p ent =>
-    have := dropEntity_shape c s p ent
+    have := removeEntity_shape c s p ent
     exact h.of_sublist this.1 (by simp only [step]; rw [this.2.2.1]; exact Nat.le_refl _)
+  | bareEnt p ent => exact h.of_sublist (List.Sublist.refl _) (Nat.le_refl _)
   | subsPass p ent => exact h.of_sublist List.filter_sublist (Nat.le_refl _)
   | bindsPass p ent => exact h.of_sublist (List.Sublist.refl _) (Nat.le_refl _)
 
@@ -460,8 +486,9 @@ theorem step_bindInv (c : Cfg) (s : St) (h : BindInv s) (op : Op) : BindInv (ste
     exact h.of_sublist (by simp only [step]; rw [h1]; exact List.Sublist.refl _) (by simp only [step]; rw [h2]; exact Nat.le_refl _)
   | drop p => exact h.of_sublist List.filter_sublist (Nat.le_refl _)
   | dropEnt p ent =>
-    have := dropEntity_shape c s p ent
+    have := removeEntity_shape c s p ent
     exact h.of_sublist this.2.1 (by simp only [step]; rw [this.2.2.2]; exact Nat.le_refl _)
+  | bareEnt p ent => exact h.of_sublist (List.Sublist.refl _) (Nat.le_refl _)
   | subsPass p ent => exact h.of_sublist (List.Sublist.refl _) (Nat.le_refl _)
   | bindsPass p ent => exact h.of_sublist List.filter_sublist (Nat.le_refl _)
 
@@ -504,17 +531,49 @@ theorem notifyTargets_length (s : St) (sEnt : List Nat) (sFeat : Nat) :
     (notifyTargets s sEnt sFeat).length = (s.subs.filter fun e => e.sEnt = sEnt && e.sFeat = sFeat).length := by
   simp [notifyTargets]
 
+/-! ### fan-out when some connections cannot be written to -/
+
+theorem sendLoop_continue (fails : Nat → Bool) (ts : List (Nat × List Nat × Nat)) :
+    sendLoop false fails ts = ts.filter (fun t => !fails t.1) := by
+  induction ts with
+  | nil => rfl
+  | cons t ts ih =>
+    simp only [sendLoop, List.filter_cons]
+    cases h : fails t.1 <;> simp [ih]
+
+/-- what a healthy subscriber gets does not depend on which OTHER connections fail: it is the registry's entries on the
+    feature for that peer — a function of the subscription set only -/
+theorem delivered_healthy (s : St) (fails : Nat → Bool) (sEnt : List Nat) (sFeat : Nat) (q : Nat) (hq : fails q = false) :
+    (delivered s fails sEnt sFeat).filter (·.1 = q) = (notifyTargets s sEnt sFeat).filter (·.1 = q) := by
+  unfold delivered
+  rw [sendLoop_continue, List.filter_filter]
+  apply List.filter_congr
+  intro t _
+  by_cases ht : t.1 = q
+  · simp [ht, hq]
+  · simp [ht]
+
+/-- the member that leaves the loop at the first failure: the healthy subscriber registered after a failing one gets
+    nothing -/
+theorem sendLoop_stop_witness :
+    sendLoop true (fun p => p = 1) [(1, [1], 1), (2, [1], 1)] = [] ∧
+    sendLoop false (fun p => p = 1) [(1, [1], 1), (2, [1], 1)] = [(2, [1], 1)] := by decide
+
 /-! ### C10: entries belong to announced entities; entity removal -/
 
 theorem sane_init (loc : List Feat) (rem : Nat → List Feat) : Sane { loc := loc, rem := rem } :=
   ⟨by simp, by simp⟩
 
+theorem mem_knownEnts {s : St} {p : Nat} {x : List Nat} :
+    x ∈ knownEnts s p ↔ (∃ f ∈ s.rem p, f.ent = x) ∨ x ∈ s.bare p := by
+  simp [knownEnts]
+
 theorem requestOk_ent {s : St} {p : Nat} {ce : List Nat} {cf : Nat} {se : List Nat} {sf t : Nat}
-    (h : requestOk s p ce cf se sf t = true) : ((s.rem p).map (·.ent)).contains ce = true := by
+    (h : requestOk s p ce cf se sf t = true) : (knownEnts s p).contains ce = true := by
   obtain ⟨_, cl, _, hc, _⟩ := (requestOk_iff s p ce cf se sf t).mp h
   have := findF_some hc
-  simp only [List.contains_eq_mem, List.mem_map, decide_eq_true_eq]
-  exact ⟨cl, this.1, this.2.1⟩
+  simp only [List.contains_eq_mem, decide_eq_true_eq]
+  exact mem_knownEnts.mpr (Or.inl ⟨cl, this.1, this.2.1⟩)
 
 theorem addSub_sane (s : St) (h : Sane s) (p : Nat) (ce : List Nat) (cf : Nat) (se : List Nat) (sf t : Nat) :
     Sane (addSub s p ce cf se sf t).1 := by
@@ -551,42 +610,154 @@ theorem addBind_sane (s : St) (h : Sane s) (p : Nat) (ce : List Nat) (cf : Nat) 
         exact requestOk_ent hok'
 
 theorem Sane.of_sublist {s s' : St} (h : Sane s) (h1 : s'.subs.Sublist s.subs) (h2 : s'.binds.Sublist s.binds)
-    (hr : s'.rem = s.rem) : Sane s' :=
-  ⟨fun e he => by rw [hr]; exact h.1 e (h1.subset he), fun e he => by rw [hr]; exact h.2 e (h2.subset he)⟩
+    (hr : s'.rem = s.rem) (hb : s'.bare = s.bare) : Sane s' := by
+  have hk : ∀ q, knownEnts s' q = knownEnts s q := by intro q; simp only [knownEnts, hr, hb]
+  exact ⟨fun e he => by rw [hk]; exact h.1 e (h1.subset he), fun e he => by rw [hk]; exact h.2 e (h2.subset he)⟩
 
-/-- repaired code: entity removal keeps every entry inside the announced trees -/
+/-- entries may go as long as what stays refers to an entity that is still known: all entries of entity `ent` of peer
+    `p` go, every other known entity stays known -/
+theorem Sane.of_removal {s s' : St} (h : Sane s) (p : Nat) (ent : List Nat)
+    (h1 : ∀ e ∈ s'.subs, e ∈ s.subs ∧ ¬ (e.peer = p ∧ e.cEnt = ent))
+    (h2 : ∀ e ∈ s'.binds, e ∈ s.binds ∧ ¬ (e.peer = p ∧ e.cEnt = ent))
+    (hk : ∀ q x, x ∈ knownEnts s q → (q = p ∧ x = ent) ∨ x ∈ knownEnts s' q) : Sane s' := by
+  constructor
+  · intro e he
+    have hm : e.cEnt ∈ knownEnts s e.peer := by simpa using h.1 e (h1 e he).1
+    rcases hk e.peer e.cEnt hm with hc | hc
+    · exact absurd hc (h1 e he).2
+    · simpa using hc
+  · intro e he
+    have hm : e.cEnt ∈ knownEnts s e.peer := by simpa using h.2 e (h2 e he).1
+    rcases hk e.peer e.cEnt hm with hc | hc
+    · exact absurd hc (h2 e he).2
+    · simpa using hc
+
+/-- repaired code: entity removal keeps every entry inside the known trees -/
 theorem dropEntity_sane_clean (s : St) (h : Sane s) (p : Nat) (ent : List Nat) : Sane (dropEntity Cfg.clean s p ent) := by
   unfold dropEntity
   split
   · exact h
   · rw [clean_dropAny]
-    constructor
+    apply h.of_removal p ent
     · intro e he
       have hm := List.mem_filter.mp he
-      have hs := h.1 e hm.1
-      dsimp only
-      by_cases hp : e.peer = p
-      · have hne : e.cEnt ≠ ent := by
-          intro hc; simp [hp, hc] at hm
-        rw [if_pos hp]
-        simp only [List.contains_eq_mem, List.mem_map, decide_eq_true_eq, List.mem_filter] at hs ⊢
-        obtain ⟨f, hf, hfe⟩ := hs
-        rw [hp] at hf
-        exact ⟨f, ⟨hf, by simp [hfe, hne]⟩, hfe⟩
-      · rw [if_neg hp]; exact hs
+      exact ⟨hm.1, by intro hc; simp [hc.1, hc.2] at hm⟩
     · intro e he
       have hm := List.mem_filter.mp he
-      have hs := h.2 e hm.1
-      dsimp only
-      by_cases hp : e.peer = p
-      · have hne : e.cEnt ≠ ent := by
-          intro hc; simp [hp, hc] at hm
-        rw [if_pos hp]
-        simp only [List.contains_eq_mem, List.mem_map, decide_eq_true_eq, List.mem_filter] at hs ⊢
-        obtain ⟨f, hf, hfe⟩ := hs
-        rw [hp] at hf
-        exact ⟨f, ⟨hf, by simp [hfe, hne]⟩, hfe⟩
-      · rw [if_neg hp]; exact hs
+      exact ⟨hm.1, by intro hc; simp [hc.1, hc.2] at hm⟩
+    · intro q x hx
+      by_cases hq : q = p
+      · by_cases hxe : x = ent
+        · exact Or.inl ⟨hq, hxe⟩
+        · right
+          rcases mem_knownEnts.mp hx with ⟨f, hf, hfe⟩ | hb
+          · refine mem_knownEnts.mpr (Or.inl ⟨f, ?_, hfe⟩)
+            dsimp only
+            rw [if_pos hq, List.mem_filter]
+            subst hq
+            exact ⟨hf, by simp [hfe, hxe]⟩
+          · exact mem_knownEnts.mpr (Or.inr hb)
+      · right
+        rcases mem_knownEnts.mp hx with ⟨f, hf, hfe⟩ | hb
+        · refine mem_knownEnts.mpr (Or.inl ⟨f, ?_, hfe⟩)
+          dsimp only
+          rw [if_neg hq]
+          exact hf
+        · exact mem_knownEnts.mpr (Or.inr hb)
+
+theorem removeEntity_sane_clean (s : St) (h : Sane s) (p : Nat) (ent : List Nat) : Sane (removeEntity Cfg.clean s p ent) := by
+  unfold removeEntity
+  split
+  · exact h
+  · split
+    · -- the cascade for an entity with features; the bare list forgets the entity as well
+      have hd := dropEntity_sane_clean s h p ent
+      have hs := dropEntity_shape Cfg.clean s p ent
+      apply hd.of_removal p ent
+      · intro e he
+        refine ⟨he, ?_⟩
+        intro hc
+        rename_i hex
+        unfold dropEntity at he
+        rw [hex] at he
+        simp only [Bool.not_true, Bool.false_eq_true, if_false] at he
+        have := (List.mem_filter.mp he).2
+        simp [hc.1, hc.2] at this
+      · intro e he
+        refine ⟨he, ?_⟩
+        intro hc
+        rename_i hex
+        unfold dropEntity at he
+        rw [hex, clean_dropAny] at he
+        simp only [Bool.not_true, Bool.false_eq_true, if_false, Bool.false_or] at he
+        have := (List.mem_filter.mp he).2
+        simp [hc.1, hc.2] at this
+      · intro q x hx
+        by_cases hc : q = p ∧ x = ent
+        · exact Or.inl hc
+        · right
+          rcases mem_knownEnts.mp hx with hf | hb
+          · exact mem_knownEnts.mpr (Or.inl hf)
+          · refine mem_knownEnts.mpr (Or.inr ?_)
+            dsimp only
+            by_cases hq : q = p
+            · rw [if_pos hq, List.mem_filter]
+              have hbs : x ∈ s.bare p := by
+                unfold dropEntity at hb
+                split at hb
+                · rw [← hq]; exact hb
+                · rw [← hq]; exact hb
+              exact ⟨hbs, by simpa using fun hxe => hc ⟨hq, hxe⟩⟩
+            · rw [if_neg hq]
+              unfold dropEntity at hb
+              split at hb <;> exact hb
+    · split
+      · rw [clean_dropAny]
+        apply h.of_removal p ent
+        · intro e he
+          have hm := List.mem_filter.mp he
+          exact ⟨hm.1, by intro hc; simp [hc.1, hc.2] at hm⟩
+        · intro e he
+          have hm := List.mem_filter.mp he
+          exact ⟨hm.1, by intro hc; simp [hc.1, hc.2] at hm⟩
+        · intro q x hx
+          by_cases hc : q = p ∧ x = ent
+          · exact Or.inl hc
+          · right
+            rcases mem_knownEnts.mp hx with hf | hb
+            · exact mem_knownEnts.mpr (Or.inl hf)
+            · refine mem_knownEnts.mpr (Or.inr ?_)
+              dsimp only
+              by_cases hq : q = p
+              · rw [if_pos hq, List.mem_filter]
+                exact ⟨hq ▸ hb, by simpa using fun hxe => hc ⟨hq, hxe⟩⟩
+              · rw [if_neg hq]; exact hb
+      · exact h
+
+theorem Sane.of_known {s s' : St} (h : Sane s) (h1 : s'.subs.Sublist s.subs) (h2 : s'.binds.Sublist s.binds)
+    (hk : ∀ q x, x ∈ knownEnts s q → x ∈ knownEnts s' q) : Sane s' :=
+  ⟨fun e he => by
+      have hm : e.cEnt ∈ knownEnts s e.peer := by simpa using h.1 e (h1.subset he)
+      simpa using hk _ _ hm,
+   fun e he => by
+      have hm : e.cEnt ∈ knownEnts s e.peer := by simpa using h.2 e (h2.subset he)
+      simpa using hk _ _ hm⟩
+
+/-- an `added` entry without features keeps every entry inside the known trees: the entity stays known, bare -/
+theorem bareEntity_sane (s : St) (h : Sane s) (p : Nat) (ent : List Nat) : Sane (bareEntity s p ent) := by
+  refine Sane.of_known (s' := bareEntity s p ent) h (List.Sublist.refl _) (List.Sublist.refl _) ?_
+  intro q x hx
+  unfold bareEntity
+  by_cases hq : q = p
+  · subst hq
+    by_cases hxe : x = ent
+    · exact mem_knownEnts.mpr (Or.inr (by simp [hxe]))
+    · rcases mem_knownEnts.mp hx with ⟨f, hf, hfe⟩ | hb
+      · exact mem_knownEnts.mpr (Or.inl ⟨f, by simp [hf, hfe, hxe], hfe⟩)
+      · exact mem_knownEnts.mpr (Or.inr (by simp [hb, hxe]))
+  · rcases mem_knownEnts.mp hx with ⟨f, hf, hfe⟩ | hb
+    · exact mem_knownEnts.mpr (Or.inl ⟨f, by simp [hq, hf], hfe⟩)
+    · exact mem_knownEnts.mpr (Or.inr (by simp [hq, hb]))
 
 theorem step_sane_clean (s : St) (h : Sane s) (op : Op) : Sane (step Cfg.clean s op) := by
   cases op with
@@ -594,14 +765,17 @@ theorem step_sane_clean (s : St) (h : Sane s) (op : Op) : Sane (step Cfg.clean s
   | unbind p cd ce cf se sf =>
     have := delBind_shape Cfg.clean s p cd ce cf se sf
     exact h.of_sublist (by simp only [step]; rw [this.2.2.1]; exact List.Sublist.refl _) this.1 this.2.2.2.2.1
+      (delBind_bare Cfg.clean s p cd ce cf se sf)
   | sub p ce cf se sf t => exact addSub_sane s h p ce cf se sf t
   | unsub p cd ce cf se sf =>
     have := delSub_shape Cfg.clean s p cd ce cf se sf
     exact h.of_sublist this.1 (by simp only [step]; rw [binds_unsub]; exact List.Sublist.refl _) this.2.2.1
-  | drop p => exact h.of_sublist List.filter_sublist List.filter_sublist rfl
-  | dropEnt p ent => exact dropEntity_sane_clean s h p ent
-  | subsPass p ent => exact h.of_sublist List.filter_sublist (List.Sublist.refl _) rfl
-  | bindsPass p ent => exact h.of_sublist (List.Sublist.refl _) List.filter_sublist rfl
+      (delSub_bare Cfg.clean s p cd ce cf se sf)
+  | drop p => exact h.of_sublist List.filter_sublist List.filter_sublist rfl rfl
+  | dropEnt p ent => exact removeEntity_sane_clean s h p ent
+  | bareEnt p ent => exact bareEntity_sane s h p ent
+  | subsPass p ent => exact h.of_sublist List.filter_sublist (List.Sublist.refl _) rfl rfl
+  | bindsPass p ent => exact h.of_sublist (List.Sublist.refl _) List.filter_sublist rfl rfl
 
 /-- repaired code, every history: every registry entry refers to an entity its peer currently announces -/
 theorem history_sane_clean (loc : List Feat) (rem : Nat → List Feat) (ops : List Op) :
@@ -626,15 +800,96 @@ theorem dropEntity_absent (c : Cfg) (s : St) (p : Nat) (ent : List Nat)
   rw [hex]
   simp
 
+/-! ### one removal entry of a notification: [0] kept, bare entities, the domain of `dropEntity` -/
+
+/-- every member: a removal entry for the device information entity [0] changes nothing -/
+theorem removeEntity_zero (c : Cfg) (s : St) (p : Nat) : removeEntity c s p [0] = s := by
+  unfold removeEntity; simp
+
+/-- every member: on the domain of `dropEntity` — an entity other than [0] that is announced with features — a removal
+    entry is that cascade (and the entity is no longer known in any form) -/
+theorem removeEntity_eq_dropEntity (c : Cfg) (s : St) (p : Nat) (ent : List Nat) (h0 : ent ≠ [0])
+    (hex : ((s.rem p).map (·.ent)).contains ent = true) :
+    (removeEntity c s p ent).subs = (dropEntity c s p ent).subs ∧
+    (removeEntity c s p ent).binds = (dropEntity c s p ent).binds ∧
+    (removeEntity c s p ent).rem = (dropEntity c s p ent).rem ∧
+    (knownEnts (removeEntity c s p ent) p).contains ent = false := by
+  unfold removeEntity
+  rw [if_neg h0, hex]
+  refine ⟨rfl, rfl, rfl, ?_⟩
+  simp only [if_true, knownEnts, dropEntity, hex, Bool.not_true, Bool.false_eq_true, if_false]
+  simp
+
+/-- repaired code: an entity known WITHOUT features goes as well — all and only the (stale) entries of that entity of
+    that peer, and it is forgotten -/
+theorem removeEntity_bare_exact (s : St) (p : Nat) (ent : List Nat) (h0 : ent ≠ [0])
+    (hex : ((s.rem p).map (·.ent)).contains ent = false) (hb : (s.bare p).contains ent = true) :
+    (removeEntity Cfg.clean s p ent).subs = s.subs.filter (fun e => !(e.peer = p && e.cEnt = ent)) ∧
+    (removeEntity Cfg.clean s p ent).binds = s.binds.filter (fun e => !(e.peer = p && e.cEnt = ent)) ∧
+    (knownEnts (removeEntity Cfg.clean s p ent) p).contains ent = false := by
+  unfold removeEntity
+  rw [if_neg h0, hex, hb, clean_dropAny]
+  refine ⟨by simp, by simp, ?_⟩
+  have hn : ∀ f ∈ s.rem p, f.ent ≠ ent := by
+    intro f hf hc
+    have : ((s.rem p).map (·.ent)).contains ent = true := by
+      simp only [List.contains_eq_mem, List.mem_map, decide_eq_true_eq]
+      exact ⟨f, hf, hc⟩
+    rw [hex] at this
+    exact Bool.noConfusion this
+  simp only [Bool.false_eq_true, if_false, if_true, knownEnts, List.contains_eq_mem, List.mem_append, List.mem_map,
+    List.mem_filter, decide_eq_false_iff_not, not_or, not_exists, not_and]
+  exact ⟨fun f hf => hn f hf, fun _ => by simp⟩
+
+/-- every member: for a peer without bare entities `removePeer` is `dropPeer` -/
+theorem removePeer_eq_dropPeer (c : Cfg) (s : St) (p : Nat) (hb : s.bare p = []) : removePeer c s p = dropPeer c s p := by
+  unfold removePeer dropPeer knownEnts
+  rw [hb, List.append_nil]
+
+/-- every member: a removal entry for an entity the stack does not know changes nothing -/
+theorem removeEntity_unknown (c : Cfg) (s : St) (p : Nat) (ent : List Nat)
+    (hk : (knownEnts s p).contains ent = false) : removeEntity c s p ent = s := by
+  have h1 : ((s.rem p).map (·.ent)).contains ent = false := by
+    cases h : ((s.rem p).map (·.ent)).contains ent with
+    | false => rfl
+    | true =>
+      have : (knownEnts s p).contains ent = true := by
+        simp only [knownEnts, List.contains_eq_mem, List.mem_append, decide_eq_true_eq] at h ⊢
+        exact Or.inl h
+      rw [hk] at this
+      exact Bool.noConfusion this
+  have h2 : (s.bare p).contains ent = false := by
+    cases h : (s.bare p).contains ent with
+    | false => rfl
+    | true =>
+      have : (knownEnts s p).contains ent = true := by
+        simp only [knownEnts, List.contains_eq_mem, List.mem_append, decide_eq_true_eq] at h ⊢
+        exact Or.inr h
+      rw [hk] at this
+      exact Bool.noConfusion this
+  unfold removeEntity
+  split
+  · rfl
+  · rw [h1, h2]
+    simp
+
+/-- the stale entry of a bare entity: peer 1 subscribed from [1]/1, announced [1] again without features, then as removed -/
+theorem bare_entity_witness :
+    let s : St := { loc := [⟨[1], 1, 1, .server⟩], rem := fun _ => [⟨[1], 1, 1, .client⟩, ⟨[2], 1, 1, .client⟩] }
+    let s1 := bareEntity (addSub s 1 [1] 1 [1] 1 1).1 1 [1]
+    s1.subs.map key = [(1, [1], 1, [1], 1)] ∧ (addSub s1 1 [1] 1 [1] 1 1).2 = false ∧
+    (dropEntity Cfg.clean s1 1 [1]).subs.map key = [(1, [1], 1, [1], 1)] ∧
+    (removeEntity Cfg.clean s1 1 [1]).subs = [] ∧ (removePeer Cfg.clean s1 1).subs = [] := by decide
+
 /-- every member: the subscription half of a teardown is exact; bindings of other peers are touched only where the
     flag `dropBindsAnyPeer` is on and the entity addresses coincide -/
-theorem dropPeer_any_member (c : Cfg) (s : St) (hs : Sane s) (p : Nat) :
-    (dropPeer c s p).subs = s.subs.filter (·.peer ≠ p) ∧
-    (dropPeer c s p).binds = s.binds.filter
-      (fun e => !(e.peer = p) && !(c.dropBindsAnyPeer && ((s.rem p).map (·.ent)).contains e.cEnt)) := by
+theorem removePeer_any_member (c : Cfg) (s : St) (hs : Sane s) (p : Nat) :
+    (removePeer c s p).subs = s.subs.filter (·.peer ≠ p) ∧
+    (removePeer c s p).binds = s.binds.filter
+      (fun e => !(e.peer = p) && !(c.dropBindsAnyPeer && (knownEnts s p).contains e.cEnt)) := by
   constructor
   · exact (c10_drop_exact s hs p).1
-  · simp only [dropPeer]
+  · simp only [removePeer]
     apply List.filter_congr
     intro e he
     by_cases hp : e.peer = p
@@ -692,11 +947,11 @@ theorem bindsPasses_binds (c : Cfg) (s : St) (p : Nat) (ents : List (List Nat)) 
 
 /-- RemoveRemoteDevice is exactly: for every entity of the peer a subscription pass, then for every entity a binding
     pass (every member of the family) -/
-theorem dropPeer_eq_passes (c : Cfg) (s : St) (p : Nat) :
-    let ents := (s.rem p).map (·.ent)
+theorem removePeer_eq_passes (c : Cfg) (s : St) (p : Nat) :
+    let ents := knownEnts s p
     let s1 := ents.foldl (fun s e => subsPass s p e) s
     let s2 := ents.foldl (fun s e => bindsPass c s p e) s1
-    (dropPeer c s p).subs = s2.subs ∧ (dropPeer c s p).binds = s2.binds := by
+    (removePeer c s p).subs = s2.subs ∧ (removePeer c s p).binds = s2.binds := by
   intro ents s1 s2
   have h1 := subsPasses_subs s p ents
   have h2 := bindsPasses_binds c s1 p ents
